@@ -7,7 +7,11 @@ For H to have normalised pivots in *every* row, the row terms r of these sites m
   V1  a site inside a function that asserts r < k (reduce(i, k)) only ever sees rows strictly below another row index:
       it can never be the last row m-1 (which becomes the first row of H after the final reversal);
   V2  so some site must take r = nrows - 1, or range over all rows, directly or through a helper's argument.
-(That the rows below m-1 are all normalised follows from the last successful step k = m-1 calling reduce(i, k) for every
+  V3  a site normalises its row *whenever that row has a pivot*: on every returning path of the site's function on which
+      nz_col_in(r) is Some, either the row is multiplied by the normalising unit of its pivot or that unit was tested to
+      be one. A shortcut that leaves early for a reason that concerns another row (e.g. "the entry of row k in this
+      column is already zero, nothing to reduce") skips the only normalisation rows 0..m-2 ever get.
+(That the rows below m-1 are all visited follows from the last successful step k = m-1 calling reduce(i, k) for every
 i < k; not re-derived here.) A 1-row input, or any input whose last working row ends with a non-normalised pivot, shows
 the difference: lll_hnf([[-5]]) = [[-5]].
 """
@@ -57,6 +61,7 @@ def run(facts, rep):
                     key = (k, r, below)
                     if key not in sites:
                         sites.append(key)
+    _v3(bodies, sites, rep)
     if not sites:
         rep.violation('E26.V2-last-row-normalised', 'LLLHNFCalc|a pivot-normalisation site reaches every row', 'LLLHNFCalc never multiplies a row by the normalising unit of its pivot', where='yui-matrix/src/dense/lll.rs')
         return
@@ -119,3 +124,37 @@ def run(facts, rep):
         rep.violation('E26.V2-last-row-normalised', inst,
                       'the pivot of a row is normalised only in %s, where the row index is asserted strictly below another row index; the last working row m-1 - the first row of H after the reversal in result() - is never multiplied by its normalising unit (e.g. lll_hnf([[-5]]) = [[-5]], lll_hnf([[0,1],[-1,0]]) = [[-1,0],[0,1]])' %
                       ', '.join(sorted({'LLLHNFCalc::' + f[len(H):] for f, _, b in sites if b})), where='yui-matrix/src/dense/lll.rs')
+
+
+def _v3(bodies, sites, rep):
+    for fn in sorted({f for f, _, _ in sites}):
+        rows = sorted({r for f, r, _ in sites if f == fn})
+        b = bodies[fn]
+        short = fn[len(H):]
+        for r in rows:
+            if not re.match(r'arg\d$', r):
+                continue
+            inst = 'LLLHNFCalc::%s|row %s is normalised on every path on which it has a pivot' % (short, r)
+            have = 0
+            bad = []
+            for p in SymEx(b, havoc_loops=True, max_paths=20000).run():
+                if p.end != 'return':
+                    continue
+                conds = [(sk(e.term), e.value) for e in p.branches()]
+                nz = [v for t, v in conds if re.match(r'discr\(nz_col_in\(&?\*?arg1\.data, %s\)\)$' % r, t)]
+                if not nz or nz[-1] != 1:
+                    continue
+                have += 1
+                done = any(e.name.split('::')[-1] == 'mul_row' and len(e.args) == 3 and sk(e.args[1]) == r and 'normalizing_unit(' in sk(e.args[2]) for e in p.calls())
+                is_one = any(re.match(r'is_one\(&?normalizing_unit\(index\(&?\*?arg1\.data\.target, \(%s, ' % r, t) and v != 0 for t, v in conds)
+                if not (done or is_one):
+                    extra = [t for t, v in conds if not t.startswith('discr(nz_col_in(') and not re.match(r'(Lt|Le|Gt|Ge)\(arg\d, arg\d\)$', t)]
+                    bad.append(extra[-1][:140] if extra else 'no further condition')
+            if not have:
+                rep.indet('E26.V3: %s has no path on which nz_col_in(%s) is Some' % (short, r))
+            elif bad:
+                rep.violation('E26.V3-normalised-whenever-pivot', inst,
+                              'LLLHNFCalc::%s can return with row %s holding a pivot that was neither multiplied by its normalising unit nor tested to be normalised (path decided by `%s`): a row whose later partners all have a zero in its pivot column keeps a negative / non-normalised pivot in H' % (short, r, sorted(set(bad))[0]),
+                              where=b.where())
+            else:
+                rep.ok('E26.V3-normalised-whenever-pivot', inst, '%d paths with a pivot, all normalise or find the unit to be one' % have)
